@@ -214,6 +214,8 @@ type c16State struct {
 	outA, logA *bytes.Buffer // the writers pA was parsed with
 	pMid       *bcl.Prog
 	dumpMid    []byte
+	pRT        *bcl.Prog
+	dumpRT     []byte
 }
 
 // take returns what was written to b since the last take.
@@ -278,12 +280,23 @@ var c16Calls = []struct {
 		return impl.Ran{Blocks: bl, Binding: bi, Err: err, Out: take(st.outA)}.Summary() + fmt.Sprintf(" dump-unchanged=%v %v", bytes.Equal(d, st.dumpMid), derr)
 	}},
 	{"Parse(mid2)", func(st *c16State) string { return obsStr(impl.Parse(c16SrcMid2)) }},
+	// a third shared Prog is re-loaded in place from its own dump and executed: positions of its warnings and of
+	// its runtime error come from the line table the load installs
+	{"Reload(pRT)+Execute", func(st *c16State) string {
+		lerr := st.pRT.Load(bytes.NewReader(st.dumpRT))
+		bl, bi, err := bcl.Execute(st.pRT)
+		d, _ := impl.Dump(st.pRT)
+		take(st.outA)
+		return impl.Ran{Blocks: bl, Binding: bi, Err: err, Log: take(st.logA)}.Summary() + fmt.Sprintf(" loaderr=%v dump-unchanged=%v", lerr, bytes.Equal(d, st.dumpRT))
+	}},
 	{"Execute(pA,stats)", func(st *c16State) string {
 		var out2 bytes.Buffer
 		bl, bi, err := bcl.Execute(st.pA, bcl.OptOutput(&out2), bcl.OptStats(true))
 		return impl.Ran{Blocks: bl, Binding: bi, Err: err, Out: take(st.outA), Log: take(st.logA)}.Summary() + fmt.Sprintf(" out2=%q", out2.String())
 	}},
 }
+
+const c16SrcRT2 = "\n\ndef w { x = 1 }\n\nbind w -> struct\n   bind w:first -> slice\n\n\nprint 1\ndef q {\n   z = 1 -\n \"s\"\n}\n"
 
 var c16SrcMid = strings.Repeat("print 1 + 2 * 3\n", 400) + "def mid { x = 1 }\nbind mid -> struct"
 var c16SrcMid2 = strings.Repeat("print \"z\" + 7\n", 450)
@@ -321,6 +334,8 @@ func newC16State() *c16State {
 	st.dumpA, _ = impl.Dump(p)
 	st.pMid, _ = bcl.Parse([]byte(c16SrcMid), "input", bcl.OptOutput(st.outA), bcl.OptLogger(st.logA))
 	st.dumpMid, _ = impl.Dump(st.pMid)
+	st.pRT, _ = bcl.Parse([]byte(c16SrcRT2), "input", bcl.OptOutput(st.outA), bcl.OptLogger(st.logA))
+	st.dumpRT, _ = impl.Dump(st.pRT)
 	return st
 }
 
@@ -483,13 +498,13 @@ func init() {
 		Level: "model_checking",
 		Rule: "(a) every map iteration order (explored exhaustively through the map-order choice point of the rewritten package) of every range-over-map executed by Bind, for the binding x target space of C15 and for Unmarshal of programs whose keys collide on one field, hold several faulty fields, or hold several named inner blocks: target and error text must be identical for all orders; " +
 			"(b) every goroutine schedule with <=B preemptions (quick 1, thorough 2) of Parse, ParseFile (3 chunks) and Interpret on corpus inputs (valid, several diagnostics, lexical failure): dump bytes, diagnostics, output, blocks, binding identical on all schedules; " +
-			"(c) every history of <=L calls (quick 3, thorough 4) over a 19-call alphabet (a second shared Prog with ~3 kB of code executed and dumped, another mid-size compilation, Parse of 3 inputs, Interpret, Execute/Dump of one shared Prog, LoadProg+Execute, Unmarshal good/bad, InterpretFile, Interpret with all options, a deep-stack/deep-nesting program, statistics of a shallow program and of the shared Prog): each call's result equals its result as the first call of a fresh state, and Dump(p) is unchanged by Execute(p); histories that start in a fresh process (each of three same-named struct types bound first) must give the same Bind outcome table; " +
+			"(c) every history of <=L calls (quick 3, thorough 4) over a 20-call alphabet (a Prog re-loaded in place from its own dump and executed, a second shared Prog with ~3 kB of code executed and dumped, another mid-size compilation, Parse of 3 inputs, Interpret, Execute/Dump of one shared Prog, LoadProg+Execute, Unmarshal good/bad, InterpretFile, Interpret with all options, a deep-stack/deep-nesting program, statistics of a shallow program and of the shared Prog): each call's result equals its result as the first call of a fresh state, and Dump(p) is unchanged by Execute(p); histories that start in a fresh process (each of three same-named struct types bound first) must give the same Bind outcome table; " +
 			"(d) supplementary (sampling): a digest over all first-call results from fresh processes with GOMAXPROCS 1/2/16 (different hash seeds) must be identical.",
 		Subs:           []*fw.Sub{subC16Map, subC16Unm, subC16Sched, subC16Hist, subC16Fresh},
 		BudgetQuick:    100,
 		BudgetThorough: 1500,
 		Assumptions: []string{"hash seeds are observable only through map iteration order and CPU counts only through scheduling; both are enumerated instead of sampled",
-			"histories are limited to the 19-call alphabet"},
+			"histories are limited to the 20-call alphabet"},
 		Run: func(c *fw.Ctx) {
 			for first := range c15RecTargets {
 				c.Do(subC16Fresh, &c16FreshCase{First: first})
